@@ -202,7 +202,8 @@ def rule_who(ctx: Ctx) -> None:
     ctx.floor("table-writers", n, 8)
     rf = repo.func("ipv8/lazy_community.py", "retrieve_cache.decorator.wrapper")
     pops = [c for c in calls(rf) if call_name(c) == "pop"]
-    ctx.anchor(pops, "pop in retrieve_cache")
+    ctx.check(bool(pops), "late-response", rf, rf.node, "retrieve_cache claims the cache with request_cache.pop",
+              "retrieve_cache no longer pops the cache: the same request can be answered twice and its timeout still fires")
     for p in pops:
         tr = next((a for a in ancestors(p) if isinstance(a, ast.Try)), None)
         ok = tr is not None and any(chain(h.type) == "KeyError" and any(isinstance(s, ast.Return) and (s.value is None or const_value(s.value) is None) for s in h.body)
@@ -255,7 +256,7 @@ WITNESSES = [
      "old": "            cache = self._identifiers.pop(identifier)\n            self.cancel_pending_task(cache)",
      "new": "            cache = self._identifiers.pop(identifier, None)\n            self.cancel_pending_task(cache)"},
     {"name": "timeout callback before unregister", "file": RC, "rule": "timeout-unregisters-first",
-     "old": "        if identifier in self._identifiers:\n            self._identifiers.pop(identifier)\n        cache.on_timeout()\n",
+     "old": "        if identifier in self._identifiers:\n            self._identifiers.pop(identifier)\n\n        cache.on_timeout()\n",
      "new": "        cache.on_timeout()\n        if identifier in self._identifiers:\n            self._identifiers.pop(identifier)\n"},
     {"name": "future completed even if done", "file": RC, "rule": "timeout-unregisters-first",
      "old": "            if not future.done():\n                if isinstance(on_timeout, Exception):",
